@@ -252,6 +252,17 @@ func (c *Ctx) Count(rule string) int {
 	return n
 }
 
+// CountKeyPrefix returns the number of obligations of a rule whose key starts with prefix.
+func (c *Ctx) CountKeyPrefix(rule, prefix string) int {
+	n := 0
+	for _, o := range c.Obs {
+		if o.Rule == rule && strings.HasPrefix(o.Key, prefix) {
+			n++
+		}
+	}
+	return n
+}
+
 // Named returns the named type pkgShort.Name or nil.
 func (c *Ctx) Named(pkgShort, name string) *types.Named {
 	p := c.PkgBy[pkgShort]
